@@ -11,13 +11,15 @@
 (*   expire(i, t)         the queue decides that i ran out of time             *)
 (*   verdict(i, out, t)   i's call returns "allowed" or "blocked"              *)
 (*   shutdown(t)          shutdown begins (context cancelled)                  *)
+(*   drain(t)             the queue starts releasing every waiting request     *)
 (*   crash                the process died                                     *)
 (*   end(t)               end of the observation                               *)
 (*                                                                             *)
 (* The specification *is* the property: Viol(s, e) is the set of clauses of    *)
 (* the statement that event e breaks in state s, Step(s, e) the bookkeeping.   *)
-(*   OneVerdict  a second decision / second return for one request, a decision *)
-(*               for a request that does not wait                              *)
+(*   OneVerdict  a second decision / second return for one request (a decision *)
+(*               may overtake the request's own enq event, which is stamped    *)
+(*               after the push: deciding an arrived request is no violation)  *)
 (*   InTTL       verdict later than arrival + TTL + Slack, or none at all      *)
 (*   OnlyIfQuota admitted without the quota's consent                          *)
 (*   Order       i admitted while some j, queued before the choice began and   *)
@@ -37,7 +39,7 @@ CONSTANTS
     Slack,      \* scheduling slack granted to the time predicate only
     QueueSize   \* configured queue size
 
-Phases == {"new", "arrived", "waiting", "decided", "answered"}
+Phases == {"new", "arrived", "waiting", "drained", "decided", "answered"}
 
 PInit == [ now     |-> 0,
            ph      |-> [i \in Req |-> "new"],
@@ -63,39 +65,42 @@ Overdue(s, i, t) == t > s.base[i] + TTL + Slack
 Viol(s, e) ==
     IF s.dead THEN {"NoCrash"}
     ELSE CASE e.ev = "arrive"  -> IF s.ph[e.id] # "new" THEN {"Protocol"} ELSE {}
-      [] e.ev = "enq"     -> (IF s.ph[e.id] # "arrived" THEN {"Protocol"} ELSE {})
-                             \cup (IF Cardinality(Waiting(s) \cup {e.id}) > QueueSize THEN {"SizeBound"} ELSE {})
+      [] e.ev = "enq"     -> IF s.ph[e.id] = "decided" THEN {}      \* decided while its enq event was in flight
+                             ELSE (IF s.ph[e.id] # "arrived" THEN {"Protocol"} ELSE {})
+                                  \cup (IF Cardinality(Waiting(s) \cup {e.id}) > QueueSize THEN {"SizeBound"} ELSE {})
       [] e.ev = "pick"    -> {}
       [] e.ev = "quota"   -> {}
-      [] e.ev = "grant"   -> (IF s.ph[e.id] # "waiting" THEN {"OneVerdict"} ELSE {})
+      [] e.ev = "grant"   -> (IF s.ph[e.id] \notin {"arrived", "waiting"} THEN {"OneVerdict"} ELSE {})
                              \cup (IF e.id \notin s.adm THEN {"OnlyIfQuota"} ELSE {})
                              \cup (IF \E j \in s.snap \ {e.id} :
                                         /\ s.ph[j] = "waiting"
                                         /\ e.t < s.at[j] + TTL
                                         /\ Precedes(s, j, e.id)
                                    THEN {"Order"} ELSE {})
-      [] e.ev = "expire"  -> IF s.ph[e.id] # "waiting" THEN {"OneVerdict"} ELSE {}
+      [] e.ev = "expire"  -> IF s.ph[e.id] \notin {"arrived", "waiting", "drained"} THEN {"OneVerdict"} ELSE {}
+      [] e.ev = "drain"   -> {}
       [] e.ev = "verdict" -> (IF s.ph[e.id] \in {"new", "answered"} THEN {"OneVerdict"} ELSE {})
                              \cup (IF e.out = "allowed" /\ e.id \notin s.granted THEN {"OnlyIfQuota"} ELSE {})
                              \cup (IF Overdue(s, e.id, e.t) THEN {"InTTL"} ELSE {})
       [] e.ev = "shutdown" -> {}
       [] e.ev = "crash"   -> {"NoCrash"}
-      [] e.ev = "end"     -> IF \E i \in Req : s.ph[i] \in {"arrived", "waiting", "decided"} /\ Overdue(s, i, e.t)
+      [] e.ev = "end"     -> IF \E i \in Req : s.ph[i] \in {"arrived", "waiting", "drained", "decided"} /\ Overdue(s, i, e.t)
                              THEN {"InTTL"} ELSE {}
       [] OTHER -> {"Protocol"}
 
-HasT(e) == e.ev \in {"arrive", "enq", "pick", "grant", "expire", "verdict", "shutdown", "end"}
+HasT(e) == e.ev \in {"arrive", "enq", "pick", "grant", "expire", "drain", "verdict", "shutdown", "end"}
 
 Step(s, e) ==
     LET s1 == IF HasT(e) /\ e.t > s.now THEN [s EXCEPT !.now = e.t] ELSE s IN
     CASE e.ev = "arrive"  -> [s1 EXCEPT !.ph[e.id] = "arrived", !.at[e.id] = e.t, !.base[e.id] = e.t, !.pr[e.id] = e.prio,
                                          !.pred[e.id] = s.everq]
-      [] e.ev = "enq"     -> [s1 EXCEPT !.ph[e.id] = "waiting", !.everq = @ \cup {e.id}]
+      [] e.ev = "enq"     -> [s1 EXCEPT !.ph[e.id] = IF @ = "arrived" THEN "waiting" ELSE @, !.everq = @ \cup {e.id}]
       [] e.ev = "pick"    -> [s1 EXCEPT !.snap = Waiting(s)]
       [] e.ev = "quota"   -> [s1 EXCEPT !.adm = IF e.ok THEN @ \cup {e.id} ELSE @ \ {e.id}]
-      [] e.ev = "grant"   -> [s1 EXCEPT !.ph[e.id] = IF @ = "waiting" THEN "decided" ELSE @,
+      [] e.ev = "grant"   -> [s1 EXCEPT !.ph[e.id] = IF @ \in {"arrived", "waiting"} THEN "decided" ELSE @,
                                          !.granted = @ \cup {e.id}, !.adm = @ \ {e.id}]
-      [] e.ev = "expire"  -> [s1 EXCEPT !.ph[e.id] = IF @ = "waiting" THEN "decided" ELSE @]
+      [] e.ev = "expire"  -> [s1 EXCEPT !.ph[e.id] = IF @ \in {"arrived", "waiting", "drained"} THEN "decided" ELSE @]
+      [] e.ev = "drain"   -> [s1 EXCEPT !.ph = [i \in Req |-> IF @[i] = "waiting" THEN "drained" ELSE @[i]]]
       [] e.ev = "verdict" -> [s1 EXCEPT !.ph[e.id] = "answered"]
       [] e.ev = "shutdown" -> [s1 EXCEPT !.down = TRUE]
       [] e.ev = "crash"   -> [s1 EXCEPT !.dead = TRUE]
